@@ -19,7 +19,7 @@ def val(a):
         return a[1]
     if t in ('fmts', 'list'):
         return list(a[1])
-    return {'none': None, 'float': 1.5, 'str': '1', 'bool': True, 'badlist': ['dd/mm/yyyy', 5]}[t]
+    return {'none': None, 'float': 1.5, 'float1': 1.0, 'str': '1', 'bool': True, 'badlist': ['dd/mm/yyyy', 5]}[t]
 
 
 def do_call(ctor, args):
